@@ -66,9 +66,17 @@ def noise_overlay(rng, plan, spec, tids):
                 text = rng.choice(NOISE_LINES)
                 if heavy and rng.random() < 0.3:
                     text = ('x' * 199 + '\n') * 1000
-                acts.append({'ph': rng.choice(['setUp', 'body', 'tearDown']),
-                             'do': 'write', 'stream': rng.choice(STREAMS),
-                             'text': text})
+                act = {'ph': rng.choice(['setUp', 'body', 'tearDown']),
+                       'do': 'write', 'stream': rng.choice(STREAMS),
+                       'text': text}
+                if rng.random() < 0.2:
+                    # bytes that are not UTF-8 (a C extension, a tool with
+                    # another locale): a complete line of them
+                    act['text'] = 'caf'
+                    act['tail_hex'] = rng.choice(['e90a', 'ff fe 0a',
+                                                  '80 81 c3 0a']).replace(
+                                                      ' ', '')
+                acts.append(act)
             p.setdefault('tests', {}).setdefault(tid, {})['actions'] = acts
     for ls in spec['layers']:
         if rng.random() < 0.5:
